@@ -36,6 +36,9 @@ type explorer struct {
 	cfg   config
 	base  *base
 	depth int
+	// prefix: the search starts from the state reached by this fixed event sequence instead of the base state
+	// (depth counts the events after it): a deeper, narrower slice of the same space
+	prefix path
 
 	states, transitions, replays, disabled     atomic.Int64
 	crashCases, cancelCases, crashDup, cancDup atomic.Int64
@@ -395,11 +398,15 @@ func (x *explorer) explore(workers int) {
 	r := x.r
 	seen := map[string]bool{}
 	// root
-	root := x.phaseA(nil)
+	root := x.phaseA(x.prefix)
+	if len(x.prefix) > 0 && !root.enabled {
+		r.Infra("%s: prefix %s is not enabled on the base chain", x.cfg, x.prefix)
+		return
+	}
 	seen[root.key] = true
 	x.states.Add(1)
-	x.phaseB(nil)
-	frontier := []frontierNode{{nil, root.key}}
+	x.phaseB(x.prefix)
+	frontier := []frontierNode{{x.prefix, root.key}}
 	for d := 1; d <= x.depth && len(frontier) > 0; d++ {
 		if r.OutOfTime() {
 			r.Incomplete(fmt.Sprintf("%s: stopped before depth %d (%d states in the frontier)", x.cfg, d, len(frontier)))
@@ -514,13 +521,29 @@ func TestCheck(t *testing.T) {
 		}
 		bases[ns] = b
 	}
-	xs := make([]*explorer, len(cfgs))
-	ev.Par(len(cfgs), len(cfgs), func(i int) {
-		x := &explorer{r: r, t: t, cfg: cfgs[i], base: bases[cfgs[i].NewState], depth: depth}
+	// Reorg below the sampled min-age floor needs 5 events (tick ; revert ; store ; L1 ahead ; store). Quick reaches it by
+	// searching 3 events deep from the state after "tick ; revert-to-floor" on the prune-on-every-head configurations.
+	type job struct {
+		cfg    config
+		depth  int
+		prefix path
+	}
+	var jobs []job
+	for _, c := range cfgs {
+		jobs = append(jobs, job{c, depth, nil})
+	}
+	if r.Quick() && os.Getenv("VERIF_C16_CFGS") == "" {
+		for _, ns := range []bool{false, true} {
+			jobs = append(jobs, job{config{0, tickIv, 1, 0, ns}, 3, path{evTick, evRevert}})
+		}
+	}
+	xs := make([]*explorer, len(jobs))
+	ev.Par(len(jobs), len(jobs), func(i int) {
+		x := &explorer{r: r, t: t, cfg: jobs[i].cfg, base: bases[jobs[i].cfg.NewState], depth: jobs[i].depth, prefix: jobs[i].prefix}
 		xs[i] = x
 		t0 := time.Now()
 		x.explore(runtime.NumCPU())
-		r.Sample(map[string]any{"config": x.cfg.String(), "states": x.states.Load(), "transitions": x.transitions.Load(),
+		r.Sample(map[string]any{"config": x.cfg.String(), "after_prefix": x.prefix.String(), "depth": x.depth, "states": x.states.Load(), "transitions": x.transitions.Load(),
 			"replays": x.replays.Load(), "prune_transitions": x.pruneTransitions.Load(), "multi_batch_prunes_interrupted": x.multiBatchPrunes.Load(),
 			"crash_points": x.crashCases.Load(), "cancel_points": x.cancelCases.Load(), "seconds": int(time.Since(t0).Seconds())})
 	})
@@ -549,7 +572,7 @@ func TestCheck(t *testing.T) {
 		}
 		r.Set("n: "+k, int64(v))
 	}
-	r.Set("configurations", int64(len(cfgs)))
+	r.Set("configurations", int64(len(jobs)))
 	r.Set("depth", int64(depth))
 	r.Set("states", tot.states.Load())
 	r.Set("transitions", tot.transitions.Load())
